@@ -227,6 +227,16 @@ func observedLe(pts []point, withTags, withHost bool, hostFromTag bool, dropLe b
 	return out
 }
 
+func withoutHistogramTagged(m map[ident][]float64) map[ident][]float64 {
+	out := map[ident][]float64{}
+	for i, v := range m {
+		if !strings.Contains(i.tags, "gsd_histogram:") {
+			out[i] = v
+		}
+	}
+	return out
+}
+
 func compare(t vt.TB, variant string, got, want map[ident][]float64, ctxDesc string) {
 	for i, w := range want {
 		g := append([]float64(nil), got[i]...)
@@ -359,7 +369,7 @@ func flushMap(t *rapid.T, c cfg, idle bool) *gostatsd.MetricMap {
 func cfgGen() *rapid.Generator[cfg] {
 	return rapid.Custom(func(t *rapid.T) cfg {
 		c := cfg{batch: rapid.SampledFrom([]int{1, 2, 3, 7, 22, 60}).Draw(t, "batch"), compress: rapid.Bool().Draw(t, "compress"),
-			limit: rapid.SampledFrom([]uint32{math.MaxUint32, 2, 1}).Draw(t, "hist-limit")}
+			limit: rapid.SampledFrom([]uint32{math.MaxUint32, 2, 1, 0}).Draw(t, "hist-limit")}
 		c.pcts = rapid.SampledFrom([][]float64{nil, {90}, {90, -10}, {50}}).Draw(t, "percentiles")
 		// otlp resource_keys: the tags with these keys move from the datapoint to the resource, the flush then spreads over
 		// several resources; the series and the per-request limit stay what they were
@@ -476,6 +486,9 @@ func TestPayloadsCarryEverySeriesOnce(t *testing.T) {
 			}
 			var pts []point
 			for _, a := range attempts {
+				if a.CtxDone {
+					continue // a straggling attempt of the given-up flush: made with a finished context, nothing goes on the wire
+				}
 				var p []point
 				var err error
 				switch kit.Variant.Backend {
@@ -519,7 +532,13 @@ func TestPayloadsCarryEverySeriesOnce(t *testing.T) {
 				// this flush type always carries count/sum/min/max inside its summary metric: compare without a mask there
 				continue
 			}
-			compare(t, name, observed(pts, true, withHost, kit.Variant.Backend == "otlp"), want, desc)
+			obs := observed(pts, true, withHost, kit.Variant.Backend == "otlp")
+			if c.limit == 0 {
+				// a gsd_histogram timer under histogram limit 0 has neither buckets nor statistics; whether a backend mentions it at
+				// all (OTLP reports its zero statistics, the others nothing) is not part of the statement: left out on both sides
+				obs, want = withoutHistogramTagged(obs), withoutHistogramTagged(want)
+			}
+			compare(t, name, obs, want, desc)
 			// histogram buckets are separate series distinguished by an le:<bound> tag: each bound exactly once with its count
 			if name != "otlp/AsHistogram" && kit.Variant.Backend != "influxdb" {
 				compare(t, name, observedBuckets(pts, withHost, kit.Variant.Backend == "otlp"), ex.le, desc+" [buckets by le]")
